@@ -1,0 +1,250 @@
+//go:build verif
+
+// Contracts for the withdrawal path (C05) and the remaining voted handlers (C01, C02); comment-only.
+package keeper
+
+// ---- C05: the status machine of a withdrawal ------------------------------------------------------
+// WithdrawalStatus: 0 UNSPECIFIED, 1 PENDING, 2 PROCESSING, 3 CANCELING, 4 CANCELED, 5 PAID.
+// wd_edge(had, o, n): writing a record with status n over a slot that (had ? holds a record with status o : is absent)
+// is an edge of the C05 status machine:
+//   absent -> PENDING, absent -> CANCELED (undecodable address), PENDING -> CANCELING, PENDING -> PROCESSING,
+//   CANCELING -> PROCESSING, CANCELING -> CANCELED, PROCESSING -> PAID, and x -> x (field update).
+// PAID and CANCELED have no outgoing edge (except the trivial x -> x); UNSPECIFIED is never written.
+//@ smt (define-fun wd_edge ((had Bool) (o Int) (n Int)) Bool (ite had
+//@       (and (<= 1 n) (<= n 5) (or (= n o) (and (= o 1) (or (= n 3) (= n 2))) (and (= o 3) (or (= n 2) (= n 4))) (and (= o 2) (= n 5))))
+//@       (or (= n 1) (= n 4))))
+
+// ids_distinct(s, n): the first n elements of the id list s are pairwise different (explicit pattern: the pattern-less nested
+// quantifier is unstable in the solvers)
+//@ smt (declare-fun idat (Slc_Int Int) Int) (assert (forall ((s Slc_Int) (i Int)) (! (= (idat s i) (select (arr_Slc_Int s) (+ (off_Slc_Int s) i))) :pattern ((idat s i)))))
+//@ smt (define-fun ids_distinct ((s Slc_Int) (n Int)) Bool (forall ((i Int) (j Int)) (! (=> (and (<= 0 j) (< j i) (< i n)) (not (= (idat s i) (idat s j)))) :pattern ((idat s i) (idat s j)))))
+
+// wd_others(dom0, val0, dom1, val1, a, b, c): no record appears or disappears, and a record that differs from its entry value had status a or b
+//   and has status c now. wd_only_ids(val0, val1, ids, n): a record that differs from its entry value is one of ids[0..n).
+//   (explicit pattern: the current record of k)
+//@ smt (define-fun wd_others ((dom0 (Array Int Bool)) (val0 (Array Int T_bitcoin_types_Withdrawal)) (dom1 (Array Int Bool)) (val1 (Array Int T_bitcoin_types_Withdrawal)) (a Int) (b Int) (c Int)) Bool (forall ((k Int)) (! (and (= (select dom1 k) (select dom0 k))
+//@       (or (= (select val1 k) (select val0 k)) (and (or (= (T_bitcoin_types_Withdrawal.Status (select val0 k)) a) (= (T_bitcoin_types_Withdrawal.Status (select val0 k)) b)) (= (T_bitcoin_types_Withdrawal.Status (select val1 k)) c)))) :pattern ((select val1 k)) :pattern ((select dom1 k)))))
+//@ smt (define-fun wd_only_ids ((val0 (Array Int T_bitcoin_types_Withdrawal)) (val1 (Array Int T_bitcoin_types_Withdrawal)) (ids Slc_Int) (n Int)) Bool (forall ((k Int)) (! (or (= (select val1 k) (select val0 k))
+//@       (exists ((j Int)) (! (and (<= 0 j) (< j n) (= (select (arr_Slc_Int ids) (+ (off_Slc_Int ids) j)) k)) :pattern ((select (arr_Slc_Int ids) (+ (off_Slc_Int ids) j)))))) :pattern ((select val1 k)))))
+
+//@ func (msgServer).ApproveCancellation
+//@ property C05
+//@ writesite bitcoin.Withdrawals edge: wd_edge(has(st.bitcoin.Withdrawals, key), st.bitcoin.Withdrawals[key].Status, val.Status)
+//@ writesite bitcoin.Withdrawals cancel_only: has(st.bitcoin.Withdrawals, key) && st.bitcoin.Withdrawals[key].Status == types.WITHDRAWAL_STATUS_CANCELING && val.Status == types.WITHDRAWAL_STATUS_CANCELED
+//@ let CANCELING = types.WITHDRAWAL_STATUS_CANCELING
+//@ let CANCELED = types.WITHDRAWAL_STATUS_CANCELED
+//@ let W = st.bitcoin.Withdrawals
+//@ let Q = st.bitcoin.EthTxQueue
+//@ ensures shape: err == nil ==> req != nil && 1 <= len(req.Id) && len(req.Id) <= 32
+//@ ensures moved: err == nil ==> forall(j, 0, len(req.Id), old(has(W, req.Id[j])) && old(W[req.Id[j]].Status) == CANCELING && has(W, req.Id[j]) && W[req.Id[j]].Status == CANCELED)
+//@ ensures distinct: err == nil ==> ids_distinct(req.Id, len(req.Id))
+//@ ensures fields_kept: err == nil ==> forall(j, 0, len(req.Id), W[req.Id[j]].Address == old(W[req.Id[j]].Address) && W[req.Id[j]].RequestAmount == old(W[req.Id[j]].RequestAmount) && W[req.Id[j]].MaxTxPrice == old(W[req.Id[j]].MaxTxPrice) && W[req.Id[j]].Receipt == old(W[req.Id[j]].Receipt))
+//@ ensures others: err == nil ==> forall(k, 0, 18446744073709551616, has(W, k) == old(has(W, k)) && (W[k] == old(W[k]) || (old(W[k].Status) == CANCELING && W[k].Status == CANCELED)))
+//@ ensures only_ids: err == nil ==> forall(k, 0, 18446744073709551616, W[k] == old(W[k]) || exists(j, 0, len(req.Id), req.Id[j] == k))
+//@ ensures queue_len: err == nil ==> has(Q) && len(Q.RejectedWithdrawals) == old(len(Q.RejectedWithdrawals)) + len(req.Id)
+//@ ensures queue_prefix: err == nil ==> forall(i, 0, old(len(Q.RejectedWithdrawals)), Q.RejectedWithdrawals[i] == old(Q.RejectedWithdrawals)[i])
+//@ ensures queue_notices: err == nil ==> forall(j, 0, len(req.Id), Q.RejectedWithdrawals[old(len(Q.RejectedWithdrawals)) + j] == req.Id[j])
+//@ ensures queue_rest: err == nil ==> Q.BlockNumber == old(Q.BlockNumber) && Q.Deposits == old(Q.Deposits) && Q.PaidWithdrawals == old(Q.PaidWithdrawals)
+//@ loop 0 invariant idx: -1 <= rangeindex && rangeindex < len(req.Id)
+//@ loop 0 invariant moved: forall(j, 0, rangeindex + 1, old(has(W, req.Id[j])) && old(W[req.Id[j]].Status) == CANCELING && has(W, req.Id[j]) && W[req.Id[j]].Status == CANCELED)
+//@ loop 0 invariant distinct: ids_distinct(req.Id, rangeindex + 1)
+//@ loop 0 invariant fields_kept: forall(j, 0, rangeindex + 1, W[req.Id[j]].Address == old(W[req.Id[j]].Address) && W[req.Id[j]].RequestAmount == old(W[req.Id[j]].RequestAmount) && W[req.Id[j]].MaxTxPrice == old(W[req.Id[j]].MaxTxPrice) && W[req.Id[j]].Receipt == old(W[req.Id[j]].Receipt))
+//@ loop 0 invariant others: forall(k, 0, 18446744073709551616, has(W, k) == old(has(W, k)) && (W[k] == old(W[k]) || (old(W[k].Status) == CANCELING && W[k].Status == CANCELED)))
+//@ loop 0 invariant only_ids: forall(k, 0, 18446744073709551616, W[k] == old(W[k]) || exists(j, 0, rangeindex + 1, req.Id[j] == k))
+//@ loop 0 decreases len(req.Id) - rangeindex
+//@ modifies st.bitcoin.Withdrawals, st.bitcoin.EthTxQueue, st.relayer.Relayer
+
+// ---- C05: PROCESSING -> PAID only on an SPV proof of one of the voted transactions ------------------------------
+// P = the Processing record of req.Pid in the entry state. The confirmed transaction is P.Txid[t] for the FIRST position t
+// whose txid equals req.Txid; the amounts reported to the execution layer are P.Output[t].Values.
+
+//@ func (msgServer).FinalizeWithdrawal
+//@ property C05
+//@ let PROCESSING = types.WITHDRAWAL_STATUS_PROCESSING
+//@ let PAID = types.WITHDRAWAL_STATUS_PAID
+//@ let W = st.bitcoin.Withdrawals
+//@ let Q = st.bitcoin.EthTxQueue
+//@ let P = old(st.bitcoin.Processing[req.Pid])
+//@ let QN = old(len(st.bitcoin.EthTxQueue.PaidWithdrawals))
+//@ writesite bitcoin.Withdrawals edge: wd_edge(has(st.bitcoin.Withdrawals, key), st.bitcoin.Withdrawals[key].Status, val.Status)
+//@ writesite bitcoin.Withdrawals paid_only: has(st.bitcoin.Withdrawals, key) && st.bitcoin.Withdrawals[key].Status == PROCESSING && val.Status == PAID
+//@ ensures shape: err == nil ==> req != nil && len(req.Txid) == 32 && len(req.BlockHeader) == 80 && len(req.IntermediateProof) > 0
+//@ ensures not_coinbase: err == nil ==> req.TxIndex != 0
+//@ ensures pid_removed: err == nil ==> old(has(st.bitcoin.Processing, req.Pid)) && !has(st.bitcoin.Processing, req.Pid)
+//@ ensures pid_others: err == nil ==> forall(p, 0, 18446744073709551616, p != req.Pid ==> has(st.bitcoin.Processing, p) == old(has(st.bitcoin.Processing, p)) && st.bitcoin.Processing[p] == old(st.bitcoin.Processing[p]))
+//@ ensures txid_voted: err == nil ==> exists(t, 0, len(P.Txid), P.Txid[t] == req.Txid)
+//@ ensures voted_hash: err == nil ==> has(st.bitcoin.BlockHashes, req.BlockNumber) && st.bitcoin.BlockHashes[req.BlockNumber] == dsha256(req.BlockHeader)
+//@ ensures spv: err == nil ==> merkle_ok(req.IntermediateProof, req.Txid, req.TxIndex, req.BlockHeader[36:68])
+//@ ensures moved: err == nil ==> forall(j, 0, len(P.Withdrawals), old(has(W, P.Withdrawals[j])) && old(W[P.Withdrawals[j]].Status) == PROCESSING && has(W, P.Withdrawals[j]) && W[P.Withdrawals[j]].Status == PAID)
+//@ ensures distinct: err == nil ==> ids_distinct(P.Withdrawals, len(P.Withdrawals))
+//@ ensures others: err == nil ==> forall(k, 0, 18446744073709551616, has(W, k) == old(has(W, k)) && (W[k] == old(W[k]) || (old(W[k].Status) == PROCESSING && W[k].Status == PAID)))
+//@ ensures only_ids: err == nil ==> forall(k, 0, 18446744073709551616, W[k] == old(W[k]) || exists(j, 0, len(P.Withdrawals), P.Withdrawals[j] == k))
+//@ ensures queue_len: err == nil ==> has(Q) && len(Q.PaidWithdrawals) == QN + len(P.Withdrawals)
+//@ ensures queue_prefix: err == nil ==> forall(i, 0, QN, Q.PaidWithdrawals[i] == old(Q.PaidWithdrawals)[i])
+//@ ensures queue_notices: err == nil ==> forall(j, 0, len(P.Withdrawals), Q.PaidWithdrawals[QN + j] != nil && Q.PaidWithdrawals[QN + j].Id == P.Withdrawals[j] && Q.PaidWithdrawals[QN + j].Receipt != nil && Q.PaidWithdrawals[QN + j].Receipt.Txid == req.Txid)
+//@ ensures amounts: err == nil ==> exists(t, 0, len(P.Txid), P.Txid[t] == req.Txid && forall(u, 0, t, P.Txid[u] != req.Txid) && len(P.Output[t].Values) == len(P.Withdrawals)
+//@           && forall(j, 0, len(P.Withdrawals), Q.PaidWithdrawals[QN + j].Receipt.Amount == P.Output[t].Values[j] && W[P.Withdrawals[j]].Receipt.Amount == P.Output[t].Values[j]))
+//@ ensures receipts: err == nil ==> forall(j, 0, len(P.Withdrawals), W[P.Withdrawals[j]].Receipt != nil && W[P.Withdrawals[j]].Receipt.Txid == req.Txid)
+//@ ensures notice_is_receipt: err == nil ==> forall(j, 0, len(P.Withdrawals), Q.PaidWithdrawals[QN + j].Receipt == W[P.Withdrawals[j]].Receipt)
+//@ ensures fields_kept: err == nil ==> forall(j, 0, len(P.Withdrawals), W[P.Withdrawals[j]].Address == old(W[P.Withdrawals[j]].Address) && W[P.Withdrawals[j]].RequestAmount == old(W[P.Withdrawals[j]].RequestAmount) && W[P.Withdrawals[j]].MaxTxPrice == old(W[P.Withdrawals[j]].MaxTxPrice))
+//@ ensures queue_rest: err == nil ==> Q.BlockNumber == old(Q.BlockNumber) && Q.Deposits == old(Q.Deposits) && Q.RejectedWithdrawals == old(Q.RejectedWithdrawals)
+//@ loop 0 invariant idx0: -1 <= rangeindex && rangeindex < len(processing.Txid)
+//@ loop 0 invariant notyet: forall(t, 0, rangeindex + 1, processing.Txid[t] != req.Txid)
+//@ loop 0 decreases len(processing.Txid) - rangeindex
+//@ loop 1 invariant idx1: -1 <= rangeindex && rangeindex < len(processing.Withdrawals)
+//@ loop 1 invariant qlen: len(queue.PaidWithdrawals) == QN + rangeindex + 1
+//@ loop 1 invariant moved: forall(j, 0, rangeindex + 1, old(has(W, P.Withdrawals[j])) && old(W[P.Withdrawals[j]].Status) == PROCESSING && has(W, P.Withdrawals[j]) && W[P.Withdrawals[j]].Status == PAID)
+//@ loop 1 invariant distinct: ids_distinct(P.Withdrawals, rangeindex + 1)
+//@ loop 1 invariant others: forall(k, 0, 18446744073709551616, has(W, k) == old(has(W, k)) && (W[k] == old(W[k]) || (old(W[k].Status) == PROCESSING && W[k].Status == PAID)))
+//@ loop 1 invariant only_ids: forall(k, 0, 18446744073709551616, W[k] == old(W[k]) || exists(j, 0, rangeindex + 1, P.Withdrawals[j] == k))
+//@ loop 1 invariant queue_prefix: forall(i, 0, QN, queue.PaidWithdrawals[i] == old(Q.PaidWithdrawals)[i])
+//@ loop 1 invariant queue_notices: forall(j, 0, rangeindex + 1, queue.PaidWithdrawals[QN + j] != nil && queue.PaidWithdrawals[QN + j].Id == P.Withdrawals[j] && queue.PaidWithdrawals[QN + j].Receipt != nil && queue.PaidWithdrawals[QN + j].Receipt.Txid == req.Txid)
+//@ loop 1 invariant amounts: forall(j, 0, rangeindex + 1, queue.PaidWithdrawals[QN + j].Receipt.Amount == txOutput.Values[j] && W[P.Withdrawals[j]].Receipt.Amount == txOutput.Values[j])
+//@ loop 1 invariant receipts: forall(j, 0, rangeindex + 1, W[P.Withdrawals[j]].Receipt != nil && W[P.Withdrawals[j]].Receipt.Txid == req.Txid)
+//@ loop 1 invariant notice_is_receipt: forall(j, 0, rangeindex + 1, queue.PaidWithdrawals[QN + j].Receipt == W[P.Withdrawals[j]].Receipt)
+//@ loop 1 invariant fields_kept: forall(j, 0, rangeindex + 1, W[P.Withdrawals[j]].Address == old(W[P.Withdrawals[j]].Address) && W[P.Withdrawals[j]].RequestAmount == old(W[P.Withdrawals[j]].RequestAmount) && W[P.Withdrawals[j]].MaxTxPrice == old(W[P.Withdrawals[j]].MaxTxPrice))
+//@ loop 1 decreases len(processing.Withdrawals) - rangeindex
+//@ modifies st.bitcoin.Withdrawals, st.bitcoin.EthTxQueue, st.bitcoin.Processing, st.relayer.Relayer
+
+// ---- C05 / C01 / C02: PENDING | CANCELING -> PROCESSING only through a quorum-voted transaction ------------------------
+// Vocabulary: txparse_err / txnout / txoutval / txoutscript / u64 (x/bitcoin/types/contracts_verif_deposit.go),
+// btcaddr_err / btcaddr_script / sysAddrScript / feerate_ok / le64flat (x/bitcoin/types/contracts_verif_withdrawal.go).
+// TX = req.NoWitnessTx, n = len(req.Id); output j of TX pays withdrawal req.Id[j], an optional output n is the change.
+
+//@ func (msgServer).ProcessWithdrawal
+//@ property C05 C01 C02
+//@ opt guard=VerifyProposal
+//@ let PENDING = types.WITHDRAWAL_STATUS_PENDING
+//@ let CANCELING = types.WITHDRAWAL_STATUS_CANCELING
+//@ let PROCESSING = types.WITHDRAWAL_STATUS_PROCESSING
+//@ let W = st.bitcoin.Withdrawals
+//@ let TX = req.NoWitnessTx
+//@ let PID = old(st.bitcoin.ProcessID)
+//@ requires counters: st.relayer.Sequence < 9223372036854775808 && st.bitcoin.ProcessID < 9223372036854775808
+//@ requires group_bound: len(st.relayer.Relayer.Voters) < 4294967296
+//@ writesite bitcoin.Withdrawals edge: wd_edge(has(st.bitcoin.Withdrawals, key), st.bitcoin.Withdrawals[key].Status, val.Status)
+//@ writesite bitcoin.Withdrawals to_processing: has(st.bitcoin.Withdrawals, key) && (st.bitcoin.Withdrawals[key].Status == PENDING || st.bitcoin.Withdrawals[key].Status == CANCELING) && val.Status == PROCESSING
+//@ ensures seq: err == nil ==> st.relayer.Sequence == old(st.relayer.Sequence) + 1
+//@ ensures randao: err == nil ==> st.relayer.Randao == sha256(bcat(old(st.relayer.Randao), req.Vote.Signature))
+//@ ensures quorum: err == nil ==> req.Proposer == old(st.relayer.Relayer.Proposer) && req.Vote.Sequence == old(st.relayer.Sequence) && req.Vote.Epoch == old(st.relayer.Relayer.Epoch)
+//@           && bitcount(req.Vote.Voters) + 1 >= (2*(len(old(st.relayer.Relayer.Voters))+1) + 2) / 3
+//@           && countTo(req.Vote.Voters, len(old(st.relayer.Relayer.Voters))) == bitcount(req.Vote.Voters)
+//@ ensures bls: err == nil ==> blsFastAggVerify(
+//@           collect(req.Vote.Voters, old(st.relayer.Relayer.Voters), mapval(st.relayer.Voters), st.relayer.Voters[old(st.relayer.Relayer.Proposer)].VoteKey, len(old(st.relayer.Relayer.Voters))),
+//@           votesigndoc(chainid(), old(st.relayer.Sequence), old(st.relayer.Relayer.Epoch), "Bitcoin/ProcessWithdrawal", old(st.relayer.Relayer.Proposer),
+//@                       bcat(bcat(le64flat(arr(req.Id), off(req.Id), len(req.Id)), sha256(TX)), le64(req.TxFee))),
+//@           req.Vote.Signature)
+//@ ensures shape: err == nil ==> req != nil && 1 <= len(req.Id) && len(req.Id) <= 32 && txparse_err(TX) == 0 && (txnout(TX) == len(req.Id) || txnout(TX) == len(req.Id) + 1)
+//@ ensures moved: err == nil ==> forall(j, 0, len(req.Id), old(has(W, req.Id[j])) && (old(W[req.Id[j]].Status) == PENDING || old(W[req.Id[j]].Status) == CANCELING) && has(W, req.Id[j]) && W[req.Id[j]].Status == PROCESSING)
+//@ ensures distinct: err == nil ==> forall(j, 0, len(req.Id), forall(i, 0, j, req.Id[i] != req.Id[j]))
+//@ ensures others: err == nil ==> forall(k, 0, 18446744073709551616, has(W, k) == old(has(W, k)) && (W[k] == old(W[k]) || ((old(W[k].Status) == PENDING || old(W[k].Status) == CANCELING) && W[k].Status == PROCESSING)))
+//@ ensures only_ids: err == nil ==> forall(k, 0, 18446744073709551616, W[k] == old(W[k]) || exists(j, 0, len(req.Id), req.Id[j] == k))
+//@ ensures script: err == nil ==> forall(j, 0, len(req.Id), btcaddr_err(old(W[req.Id[j]].Address)) == 0 && txoutscript(TX, j) == btcaddr_script(old(W[req.Id[j]].Address)))
+//@ ensures value_max: err == nil ==> forall(j, 0, len(req.Id), u64(txoutval(TX, j)) <= old(W[req.Id[j]].RequestAmount))
+//@ ensures fee_rate: err == nil ==> wdp_feerate(req.Id, len(req.Id), old(mapval(st.bitcoin.Withdrawals)), req.TxFee, len(TX))
+//@ ensures change: err == nil ==> (txnout(TX) == len(req.Id) + 1 ==> has(st.bitcoin.Pubkey) && sysAddrScript(st.bitcoin.Pubkey, txoutscript(TX, len(req.Id))))
+//@ ensures processing: err == nil ==> has(st.bitcoin.Processing, PID) && st.bitcoin.ProcessID == PID + 1 && st.bitcoin.Processing[PID].Fee == req.TxFee && st.bitcoin.Processing[PID].Withdrawals == req.Id
+//@           && len(st.bitcoin.Processing[PID].Txid) == 1 && st.bitcoin.Processing[PID].Txid[0] == dsha256(TX) && len(st.bitcoin.Processing[PID].Output) == 1 && len(st.bitcoin.Processing[PID].Output[0].Values) == len(req.Id)
+//@ ensures processing_others: err == nil ==> forall(p, 0, 18446744073709551616, p != PID ==> has(st.bitcoin.Processing, p) == old(has(st.bitcoin.Processing, p)) && st.bitcoin.Processing[p] == old(st.bitcoin.Processing[p]))
+//@ loop 0 invariant idx: -1 <= rangeindex && rangeindex < len(req.Id)
+//@ loop 0 invariant values_len: len(txOutput.Values) == len(req.Id)
+//@ loop 0 invariant fee_rate: wdp_feerate(req.Id, rangeindex + 1, old(mapval(st.bitcoin.Withdrawals)), req.TxFee, len(TX))
+//@ loop 0 invariant moved: forall(j, 0, rangeindex + 1, old(has(W, req.Id[j])) && (old(W[req.Id[j]].Status) == PENDING || old(W[req.Id[j]].Status) == CANCELING) && has(W, req.Id[j]) && W[req.Id[j]].Status == PROCESSING)
+//@ loop 0 invariant others: forall(k, 0, 18446744073709551616, has(W, k) == old(has(W, k)) && (W[k] == old(W[k]) || ((old(W[k].Status) == PENDING || old(W[k].Status) == CANCELING) && W[k].Status == PROCESSING)))
+//@ loop 0 invariant only_ids: forall(k, 0, 18446744073709551616, W[k] == old(W[k]) || exists(j, 0, rangeindex + 1, req.Id[j] == k))
+//@ loop 0 invariant script: forall(j, 0, rangeindex + 1, btcaddr_err(old(W[req.Id[j]].Address)) == 0 && txoutscript(TX, j) == btcaddr_script(old(W[req.Id[j]].Address)))
+//@ loop 0 invariant value_max: forall(j, 0, rangeindex + 1, u64(txoutval(TX, j)) <= old(W[req.Id[j]].RequestAmount))
+//@ loop 0 invariant distinct: ids_distinct(req.Id, rangeindex + 1)
+//@ loop 0 decreases len(req.Id) - rangeindex
+//@ modifies st.bitcoin.Withdrawals, st.bitcoin.Processing, st.bitcoin.ProcessID, st.relayer.Sequence, st.relayer.Randao, st.relayer.Relayer
+// Tried and NOT kept in this block (each makes one or two other obligations time out; the solvers are on a knife edge here, see
+// NOTES.md section d): processing_values (Processing[PID].Output[0].Values[j] == uint64(value of output j)), receipts
+// (Receipt == {dsha256(TX), j, uint64(value j)}), fields_kept, value_nonneg / value_range_if_sane_request (finding W1).
+// The full attempt is kept in /var/tmp/ag_wd/wd_full_attempt.go.
+
+// ---- C05 / C01 / C02: fee bump of a processing batch ----------------------------------------------------------------------
+// P = the Processing record of req.Pid in the entry state; TX = req.NewNoWitnessTx.
+
+//@ func (msgServer).ReplaceWithdrawal
+//@ property C05 C01 C02
+//@ opt guard=VerifyProposal
+//@ let PROCESSING = types.WITHDRAWAL_STATUS_PROCESSING
+//@ let W = st.bitcoin.Withdrawals
+//@ let TX = req.NewNoWitnessTx
+//@ let P = old(st.bitcoin.Processing[req.Pid])
+//@ let PN = st.bitcoin.Processing[req.Pid]
+//@ requires counters: st.relayer.Sequence < 9223372036854775808
+//@ requires group_bound: len(st.relayer.Relayer.Voters) < 4294967296
+//@ writesite bitcoin.Withdrawals edge: wd_edge(has(st.bitcoin.Withdrawals, key), st.bitcoin.Withdrawals[key].Status, val.Status)
+//@ writesite bitcoin.Withdrawals status_kept: has(st.bitcoin.Withdrawals, key) && st.bitcoin.Withdrawals[key].Status == PROCESSING && val.Status == PROCESSING
+//@ ensures seq: err == nil ==> st.relayer.Sequence == old(st.relayer.Sequence) + 1
+//@ ensures randao: err == nil ==> st.relayer.Randao == sha256(bcat(old(st.relayer.Randao), req.Vote.Signature))
+//@ ensures quorum: err == nil ==> req.Proposer == old(st.relayer.Relayer.Proposer) && req.Vote.Sequence == old(st.relayer.Sequence) && req.Vote.Epoch == old(st.relayer.Relayer.Epoch)
+//@           && bitcount(req.Vote.Voters) + 1 >= (2*(len(old(st.relayer.Relayer.Voters))+1) + 2) / 3
+//@           && countTo(req.Vote.Voters, len(old(st.relayer.Relayer.Voters))) == bitcount(req.Vote.Voters)
+//@ ensures bls: err == nil ==> blsFastAggVerify(
+//@           collect(req.Vote.Voters, old(st.relayer.Relayer.Voters), mapval(st.relayer.Voters), st.relayer.Voters[old(st.relayer.Relayer.Proposer)].VoteKey, len(old(st.relayer.Relayer.Voters))),
+//@           votesigndoc(chainid(), old(st.relayer.Sequence), old(st.relayer.Relayer.Epoch), "Bitcoin/ReplaceWithdrawal", old(st.relayer.Relayer.Proposer),
+//@                       bcat(bcat(le64(req.Pid), le64(req.NewTxFee)), sha256(TX))),
+//@           req.Vote.Signature)
+//@ ensures shape: err == nil ==> req != nil && old(has(st.bitcoin.Processing, req.Pid)) && txparse_err(TX) == 0 && (txnout(TX) == len(P.Withdrawals) || txnout(TX) == len(P.Withdrawals) + 1)
+//@ ensures fee_higher: err == nil ==> req.NewTxFee > P.Fee && PN.Fee == req.NewTxFee
+//@ ensures txid_new: err == nil ==> forall(t, 0, len(P.Txid), P.Txid[t] != dsha256(TX))
+//@ ensures appended: err == nil ==> has(st.bitcoin.Processing, req.Pid) && len(PN.Txid) == len(P.Txid) + 1 && PN.Txid[len(P.Txid)] == dsha256(TX) && len(PN.Output) == len(P.Output) + 1 && PN.Withdrawals == P.Withdrawals
+//@ ensures txids_kept: err == nil ==> forall(t, 0, len(P.Txid), PN.Txid[t] == P.Txid[t])
+//@ ensures processing_others: err == nil ==> forall(p, 0, 18446744073709551616, p != req.Pid ==> has(st.bitcoin.Processing, p) == old(has(st.bitcoin.Processing, p)) && st.bitcoin.Processing[p] == old(st.bitcoin.Processing[p]))
+//@ ensures still_processing: err == nil ==> wdp_from(P.Withdrawals, len(P.Withdrawals), old(mapdom(st.bitcoin.Withdrawals)), old(mapval(st.bitcoin.Withdrawals)), PROCESSING, PROCESSING)
+//@ ensures status_unchanged: err == nil ==> forall(k, 0, 18446744073709551616, has(W, k) == old(has(W, k)) && W[k].Status == old(W[k].Status) && W[k].Address == old(W[k].Address) && W[k].RequestAmount == old(W[k].RequestAmount) && W[k].MaxTxPrice == old(W[k].MaxTxPrice))
+//@ ensures script: err == nil ==> wdp_script(P.Withdrawals, len(P.Withdrawals), old(mapval(st.bitcoin.Withdrawals)), TX)
+//@ ensures value_max: err == nil ==> wdp_valmax(P.Withdrawals, len(P.Withdrawals), old(mapval(st.bitcoin.Withdrawals)), TX)
+//@ ensures fee_rate: err == nil ==> wdp_feerate(P.Withdrawals, len(P.Withdrawals), old(mapval(st.bitcoin.Withdrawals)), req.NewTxFee, len(TX))
+//@ ensures change: err == nil ==> (txnout(TX) == len(P.Withdrawals) + 1 ==> has(st.bitcoin.Pubkey) && sysAddrScript(st.bitcoin.Pubkey, txoutscript(TX, len(P.Withdrawals))))
+//@ loop 0 invariant idx0: -1 <= rangeindex && rangeindex < len(processing.Txid)
+//@ loop 0 invariant differs: forall(t, 0, rangeindex + 1, processing.Txid[t] != dsha256(TX))
+//@ loop 0 decreases len(processing.Txid) - rangeindex
+//@ loop 1 invariant idx1: -1 <= rangeindex && rangeindex < len(processing.Withdrawals)
+//@ loop 1 invariant values_len: len(txOutput.Values) == len(processing.Withdrawals)
+//@ loop 1 invariant still_processing: wdp_from(P.Withdrawals, rangeindex + 1, old(mapdom(st.bitcoin.Withdrawals)), old(mapval(st.bitcoin.Withdrawals)), PROCESSING, PROCESSING)
+//@ loop 1 invariant status_unchanged: forall(k, 0, 18446744073709551616, has(W, k) == old(has(W, k)) && W[k].Status == old(W[k].Status) && W[k].Address == old(W[k].Address) && W[k].RequestAmount == old(W[k].RequestAmount) && W[k].MaxTxPrice == old(W[k].MaxTxPrice))
+//@ loop 1 invariant script: wdp_script(P.Withdrawals, rangeindex + 1, old(mapval(st.bitcoin.Withdrawals)), TX)
+//@ loop 1 invariant value_max: wdp_valmax(P.Withdrawals, rangeindex + 1, old(mapval(st.bitcoin.Withdrawals)), TX)
+//@ loop 1 invariant fee_rate: wdp_feerate(P.Withdrawals, rangeindex + 1, old(mapval(st.bitcoin.Withdrawals)), req.NewTxFee, len(TX))
+//@ loop 1 decreases len(processing.Withdrawals) - rangeindex
+//@ modifies st.bitcoin.Withdrawals, st.bitcoin.Processing, st.relayer.Sequence, st.relayer.Randao, st.relayer.Relayer
+
+// ---- C01 / C02: the remaining voted handlers -----------------------------------------------------------------------------
+
+//@ func (msgServer).NewPubkey
+//@ property C01 C02
+//@ opt guard=VerifyProposal
+//@ requires counters: st.relayer.Sequence < 9223372036854775808
+//@ requires group_bound: len(st.relayer.Relayer.Voters) < 4294967296
+//@ ensures seq: err == nil ==> st.relayer.Sequence == old(st.relayer.Sequence) + 1
+//@ ensures randao: err == nil ==> st.relayer.Randao == sha256(bcat(old(st.relayer.Randao), req.Vote.Signature))
+//@ ensures quorum: err == nil ==> req.Proposer == old(st.relayer.Relayer.Proposer) && req.Vote.Sequence == old(st.relayer.Sequence) && req.Vote.Epoch == old(st.relayer.Relayer.Epoch)
+//@           && bitcount(req.Vote.Voters) + 1 >= (2*(len(old(st.relayer.Relayer.Voters))+1) + 2) / 3
+//@           && countTo(req.Vote.Voters, len(old(st.relayer.Relayer.Voters))) == bitcount(req.Vote.Voters)
+//@ ensures bls: err == nil ==> blsFastAggVerify(
+//@           collect(req.Vote.Voters, old(st.relayer.Relayer.Voters), mapval(st.relayer.Voters), st.relayer.Voters[old(st.relayer.Relayer.Proposer)].VoteKey, len(old(st.relayer.Relayer.Voters))),
+//@           votesigndoc(chainid(), old(st.relayer.Sequence), old(st.relayer.Relayer.Epoch), "Bitcoin/NewPubkey", old(st.relayer.Relayer.Proposer), encpk(req.Pubkey)),
+//@           req.Vote.Signature)
+//@ ensures key_new: err == nil ==> req.Pubkey != nil && !old(has(st.relayer.Pubkeys, encpk(req.Pubkey))) && has(st.relayer.Pubkeys, encpk(req.Pubkey))
+//@ ensures key_current: err == nil ==> has(st.bitcoin.Pubkey) && st.bitcoin.Pubkey == *req.Pubkey
+//@ modifies st.bitcoin.Pubkey, st.relayer.Pubkeys, st.relayer.Sequence, st.relayer.Randao, st.relayer.Relayer
+
+//@ func (msgServer).NewConsolidation
+//@ property C01 C02
+//@ opt guard=VerifyProposal
+//@ requires counters: st.relayer.Sequence < 9223372036854775808
+//@ requires group_bound: len(st.relayer.Relayer.Voters) < 4294967296
+//@ ensures seq: err == nil ==> st.relayer.Sequence == old(st.relayer.Sequence) + 1
+//@ ensures randao: err == nil ==> st.relayer.Randao == sha256(bcat(old(st.relayer.Randao), req.Vote.Signature))
+//@ ensures quorum: err == nil ==> req.Proposer == old(st.relayer.Relayer.Proposer) && req.Vote.Sequence == old(st.relayer.Sequence) && req.Vote.Epoch == old(st.relayer.Relayer.Epoch)
+//@           && bitcount(req.Vote.Voters) + 1 >= (2*(len(old(st.relayer.Relayer.Voters))+1) + 2) / 3
+//@           && countTo(req.Vote.Voters, len(old(st.relayer.Relayer.Voters))) == bitcount(req.Vote.Voters)
+//@ ensures bls: err == nil ==> blsFastAggVerify(
+//@           collect(req.Vote.Voters, old(st.relayer.Relayer.Voters), mapval(st.relayer.Voters), st.relayer.Voters[old(st.relayer.Relayer.Proposer)].VoteKey, len(old(st.relayer.Relayer.Voters))),
+//@           votesigndoc(chainid(), old(st.relayer.Sequence), old(st.relayer.Relayer.Epoch), "Bitcoin/NewConsolidation", old(st.relayer.Relayer.Proposer), sha256(req.NoWitnessTx)),
+//@           req.Vote.Signature)
+//@ ensures single_output_to_relayer: err == nil ==> txparse_err(req.NoWitnessTx) == 0 && txnout(req.NoWitnessTx) == 1 && has(st.bitcoin.Pubkey) && sysAddrScript(st.bitcoin.Pubkey, txoutscript(req.NoWitnessTx, 0))
+//@ modifies st.relayer.Sequence, st.relayer.Randao, st.relayer.Relayer
